@@ -669,6 +669,16 @@ def exec_roundtrip(desc, ctx):
     ctx.check(d2 <= tol, 'to_angle_reference',
               f'reference rotation of m.to_angle()={read_ang(ang)} differs from m by {d2:g} (tol {tol:g}, h={h:g})', h=h)
     ctx.check(read_mat(m) == got, 'source_unchanged', 'to_angle() changed the matrix')
+    # converting the same matrix again gives the same angle, whatever was done to the first result in the meantime
+    first = read_ang(ang)
+    ang.pitch = first[0] + 35.0
+    ang.yaw = first[1] + 90.0
+    ang @= sm.Matrix.from_roll(20.0)
+    again = m.to_angle()
+    ctx.check(again is not ang and read_ang(again) == first, 'to_angle_repeatable',
+              f'a second m.to_angle() after the first result was modified in place gave {read_ang(again)} (same object: '
+              f'{again is ang}), the first call gave {first}', cls=desc['cls'])
+    ctx.check(read_mat(m) == got, 'source_unchanged', 'modifying the result of to_angle() changed the matrix')
 
 
 def exec_inverse(desc, ctx):
